@@ -74,3 +74,7 @@ register("C18", "exploration",
          "Four generated case kinds on systems with repeated molecule names, each through a full gen_coords run: build files with overlapping/adjacent [ molecule ] ranges (also covering other names) compared with an independent name/index/resname/resid selection on the node attributes; -start specifications with omitted fields (start placement must hit the first matching residue, other molecules unchanged); -lig (ligand one minimum-image step from the host residue, hosts and molecule list restored); -split (fragments partition the atoms, new residue names, .gro order).",
          "a [ molecule ] range covering other names must leave those molecules untouched; time-outs inconclusive",
          "Hypothesis-generated inputs + independent selection oracle", "DESIGN.md 4/C18")
+register("C20", "fault_enumeration",
+         "An exception is injected before and after every stage function of gen_params, gen_coords and gen_seq (and after k written lines inside the .itp/.gro writers), for 1-3 exception types, with the output path absent / present / present with older backups, on two inputs per program, plus naturally failing inputs and fault-free runs; the output directory is hashed before and after. Enumerated completely for the stage lists in pbt/c20.py.",
+         "stage lists are the call sites of the three top-level functions at this commit; the deferred-writer singleton is cleared per case; temp files are kept out of the hashed directory",
+         "exhaustive enumeration of crash points x prior states, before/after directory-hash oracle", "DESIGN.md 4/C20")
